@@ -296,8 +296,21 @@ func TestC14_FilterHistory(t *testing.T) {
 			}
 			internal = internal || sc.Ops[i].Kind == "ikey" || sc.Ops[i].Kind == "txn"
 		}
+		// where the connector keeps its own documents must not matter to the filter
+		switch rapid.IntRange(0, 3).Draw(rt, "placement") {
+		case 1:
+			sc.MetaBucket = "other-bucket"
+		case 2:
+			sc.File = true
+		}
 		journal("C14", "c14hist", sc)
 		v, labels, _ := runHistory(&sc, known != nil, "C14")
+		if sc.MetaBucket != "" {
+			labels["metadata_in_other_bucket"] = true
+		}
+		if sc.File {
+			labels["metadata_in_file"] = true
+		}
 		journalDone()
 		if v != nil {
 			violation(rt, v.Prop, "c14hist", sc, "%s", v.Detail)
